@@ -1,5 +1,6 @@
 # C13 Caller buffers are respected; attached-buffer accounting is exact.
 import C05, C02
+from engine import Job
 LEVEL = 'other'
 TRUSTED = ['MPI_Unpack touches exactly the type map of the buffer datatype']
 ASSUMPTIONS = ['ncmpii_in_swapn is replaced by a contract that counts in-place swaps per caller buffer']
@@ -11,4 +12,11 @@ def jobs(tier, ws):
     js = [j for j in C05.jobs(tier, ws, prop='C13') if 'put_varm' in j.name]
     js += [j for j in C02.cancel_jobs(tier, 'C13') if '/put/' in j.name]
     js += C02.commit_jobs(tier, 'C13', only=[(2, 1), (3, 2)] if tier == 'quick' else None)   # buffers released / swapped back exactly for the completed requests
+    GP = ['src/drivers/ncmpio/ncmpio_i_getput.m4', 'src/drivers/common/utils.c', 'src/drivers/common/error_mpi2nc.c']
+    for tail in ((0, 2, 127) if tier == 'quick' else (0, 1, 2, 126, 127)):
+        js.append(Job('C13/ncmpio_abuf_malloc/tail%d' % tail, 'C13', GP, 'C13_abuf.c', enforce='ncmpio_abuf_malloc', defines=['-DTAIL=%d' % tail], canaries=['buffer_exactly_filled'] + (['table_grown'] if tail == 127 else []),
+                      unwind=4, kind='bounded', timeout=300, solver=['--sat-solver', 'cadical'], checks=['--arrays-uf-always'], bound='occupancy table of 128 entries with %d in use; attached buffer <= 4096 bytes; sizes symbolic' % tail))
+    for tail in ((1, 3) if tier == 'quick' else (1, 2, 3, 128)):
+        js.append(Job('C13/ncmpio_abuf_dealloc/tail%d' % tail, 'C13', GP, 'C13_abuf.c', enforce='ncmpio_abuf_dealloc', defines=['-DH_dealloc', '-DTAIL=%d' % tail], canaries=(['table_empty_again'] if tail == 1 else []),
+                      unwind=4, kind='bounded', timeout=300, solver=['--sat-solver', 'cadical'], checks=['--arrays-uf-always'], bound='occupancy table of 128 entries with %d in use; sizes symbolic' % tail))
     return js
